@@ -200,7 +200,9 @@ PROPS = {
                       "(never writes), TcpStream / Chain / FixedBuf stand-ins, the poll-based AsyncWrite impl of AsyncWriteCounter (its "
                       "poll_write is discharged by a complete Kani harness). The body readers are the real functions, re-verified in this unit. "
                       "Not covered: that the peer observes the bytes (kernel), cancellation, that a body read consumes exactly len bytes of "
-                      "*this* connection (proved over the reader handed to the body functions, C09).",
+                      "*this* connection (proved over the reader handed to the body functions, C09). The bounded stand-in c05 drives the real HttpConn over a "
+                      "loopback socket pair with every operation sequence up to length 3 (4 thorough) for twelve client scripts against a reference "
+                      "state machine written from the property statement and compares results, states, bodies and the bytes received.",
         "verus": ["conn"],
         "verus_thorough": [],
         "kani": ["c05"],
@@ -212,7 +214,8 @@ PROPS = {
             "assumed at Verus level: AsyncWriteCounter's AsyncWrite impl forwards to the inner writer and counts accepted bytes (poll_write discharged by Kani harness c05_counter_poll_write)",
             "#[derive(Structural)] is added to ReadState / WriteState / ResponseKind so that the derived == is read as structural equality",
         ],
-        "not_covered": ["kernel / peer-side observation of the bytes", "task cancellation at await points"],
+        "not_covered": ["kernel / peer-side observation of the bytes", "task cancellation at await points",
+                        "that a body read takes its bytes from the connection buffer followed by the socket, in that order (the contracts speak about the reader handed to the body functions): bounded stand-in c05 (model-based, API level) only"],
     },
     "C08": {
         "title": "A failed response write never corrupts the connection",
